@@ -398,6 +398,21 @@ func main() {
 				// bound; two further "other" bytes ($ and a non-ASCII byte) to a lower one.
 				n += mc.ForStrings(alphabet[:7], mc.Pick(r, 7, 9), r.Workers, one)
 				n += mc.ForStrings(alphabet, mc.Pick(r, 5, 6), r.Workers, one)
+				// The class alphabet assumes that all bytes of a class behave alike;
+				// a per-byte table can single one out. Every byte value, alone, in
+				// pairs, and in each quoting and escaping context.
+				var all256 []byte
+				for b := 0; b < 256; b++ {
+					all256 = append(all256, byte(b))
+				}
+				n += mc.ForStrings(string(all256), 2, r.Workers, one)
+				for b := 0; b < 256; b++ {
+					c := string([]byte{byte(b)})
+					for _, t := range []string{"a" + c + "b", "a " + c + " b", c + "a", "a" + c, "'a" + c + "b'", "\"a" + c + "b\"", "\\" + c + "b", "a\\" + c, "\"\\" + c + "\"", "'" + c, "\"" + c, c + "'a'", c + c + c, "a" + c + "\n" + c + "b"} {
+						one([]byte(t))
+						n++
+					}
+				}
 				covered := 0
 				for s := 0; s < shellh.NStates; s++ {
 					for c := 0; c < shellh.NClasses; c++ {
@@ -409,7 +424,7 @@ func main() {
 				r.AddEval(n, n, n, incomplete)
 				r.Count("state_class_entries_covered_of_42", int64(covered))
 				r.Count("consecutive_transition_pairs_covered", int64(len(pairs)))
-				r.Bound("alphabet", "a, space, tab, newline, backslash, single quote, double quote to the full bound; plus $ and 0x80 to the lower bound")
+				r.Bound("alphabet", "a, space, tab, newline, backslash, single quote, double quote to the full bound; plus $ and 0x80 to the lower bound; every byte value 0..255 alone, in all pairs and in 14 quoting/escaping contexts")
 				r.Rule("Split on every string over the byte-class alphabet vs the reference tokenizer (fields and completeness); coverage of (state, class) entries and of consecutive transition pairs measured with a shadow automaton; non-trivial = incomplete inputs (open quote or dangling backslash)")
 				r.Sample(scase{"a\\\n b \"c\\\"d\" 'e"})
 				// Real shells on the complete inputs free of unquoted newlines and other metacharacters.
